@@ -22,6 +22,7 @@ from . import core, proj
 
 PROBES = {
     'plain': 'hello world again and again\n',
+    'inline-entity': '[x](/u&ouml "t&copy") ![y](/u&ouml) &ouml &copy\n\n```py&copy\ncode\n```\n',
     'setext': 'Foo\n---\n\nBar\n===\n\n###\n\n    code\n',
     'composite': ('Setext one\n---\n\n# ATX after `code` &amp; &copy; [ref] [ent]\n\n> quote with `span`\n> Foo\n> ---\n\n>\n\n-\n\n## closed ##\n\n##\n\n'
                   'hello `code` world <b>raw</b> $x$ [[a|b]] \\* *em* {{m}}\n\n~~~py\nfence\n~~~\n\n<div>\nhtml block\n</div>\n\n'
@@ -245,7 +246,7 @@ def replay_history(rec, fresh_tab, idx):
                 except ValueError:
                     pass
             elif name == 'parse':
-                m.Document(PROBES['composite'])
+                m.Document(PROBES['inline-entity'] if (idx + i) % 2 else PROBES['composite'])
             elif name == 'fail':
                 out = do_fail(W, arg, idx + i)
                 if out != 'boom':
@@ -269,7 +270,7 @@ def replay_history(rec, fresh_tab, idx):
             drift.append('residue at quiescent point: %s' % res)
         # probes: self-contained calls compared with a fresh interpreter
         import functools
-        order = ['plain', 'setext', 'composite']
+        order = ['plain', 'setext', 'composite', 'inline-entity'] if idx % 2 else ['plain', 'inline-entity', 'setext', 'composite']
         kinds = ['Html', ['Plain', 'GithubWiki', 'MathJax', 'LaTeX', 'Markdown', 'XWiki'][idx % 6]]
         for pname in order:
             for kind in kinds if pname != 'plain' else ['Html']:
